@@ -50,9 +50,9 @@ def run(chk):
                loc=fi.loc())
         tz = facts.get("toeplitz")
         chk.ob("R-ST-SIB", c + "{conjugation}", "conj on the first Toeplitz argument (first n/2+1 bins) only", tz is not None and tz[0] is True and tz[1] is False
-               and tz[2] == HALF + "+1" and tz[3] == nfft, derived="%s" % (tz,), loc=fi.loc())
+               and tz[2] == HALF + "+1" and tz[3] == nfft, derived="%s" % (tz,), loc=fi.loc(), inconclusive=tz is None)     # no Toeplitz call: another construction
         chk.ob("R-ST-SIB", c + "{rows}", "rows 1 : n/2+1 (the zero-frequency row is dropped)", facts.get("rows") == ("1", HALF + "+1"), derived="%s" % (facts.get("rows"),),
-               loc=fi.loc())
+               loc=fi.loc(), inconclusive=facts.get("rows") is None)
         chk.ob("R-ST-SIB", c + "{inverse fft}", "inverse FFT of (spectrum rows x Gaussian) along axis 1", facts.get("ifft.axis") == 1 and facts.get("ifft.window") is True,
                derived="axis=%s, window applied: %s" % (facts.get("ifft.axis"), facts.get("ifft.window")), loc=fi.loc())
         chk.ob("R-ST-SIB", c + "{flip}", "rows are flipped (Nyquist first)", ("flipud",) in sk and sk.index(("flipud",)) > [k for k, s in enumerate(sk) if s[0] == "ifft"][0]
@@ -60,7 +60,8 @@ def run(chk):
         expect(chk, "R-ST-LIN", c + ".result", r.ret, lin=[R], dtype="complex", shape=(HALF, LinExpr(HALF).scale(2)), kind=K_ARRAY, tags_has=["flip", "gaussian", "conj", "toeplitz"],
                loc=fi.loc())
     chk.ob("R-ST-SIB", "transform~transform_w_scipy_fft", "equal skeletons", sks["transform"] == sks["transform_w_scipy_fft"] and len(sks["transform"]) >= 6,
-           derived="%s vs %s" % (sks["transform"], sks["transform_w_scipy_fft"]))
+           derived="%s vs %s" % (sks["transform"], sks["transform_w_scipy_fft"]),
+           inconclusive=(sks["transform"] == sks["transform_w_scipy_fft"]))       # equal but shorter than the known construction: not located
     # window depends only on n/2
     r = analyse(chk, ST + "generate_gaussian", lambda I, st, fi: dict(n_d2=int_scalar("n_d2", "h")))
     expect(chk, "R-ST-LIN", "eqsig/stockwell.py:generate_gaussian", r.ret, shape=("h", LinExpr("h").scale(2)), sign="pos", const_in=[R], loc=r.fi.loc())
@@ -143,7 +144,8 @@ def run(chk):
                    derived="closed form %s" % closed[0], loc=closed[1])
         else:
             chk.ob("R-ST-AXIS", c + "{frequency axis}", "frequencies (degree -1 in dt) flipped like the rows, indexed by the argmax", okt,
-                   derived="%d selection(s) by the argmax" % len(tk), loc=tk[0][2] if tk else r.fi.loc(), inconclusive=not tk)
+                   derived="%d selection(s) by the argmax" % len(tk), loc=tk[0][2] if tk else r.fi.loc(),
+                   inconclusive=(not tk) or any(x.indef for t_ in tk for x in t_[:2]))
             # the frequency axis itself: arange(1, points+1) / (2 * points * dt), points = number of rows
 
             def unflip(v):
@@ -159,11 +161,13 @@ def run(chk):
                    derived="%s" % form, loc=r.fi.loc(fdef[0]) if fdef else r.fi.loc(), inconclusive=not fdef)
         pts = [n for sc in scopes for n in ast.walk(sc.node) if isinstance(n, ast.Assign) and isinstance(n.targets[0], ast.Name) and n.targets[0].id == "points"]
         chk.ob("R-ST-AXIS", c + "{points}", "points is the number of rows of the transform", len(pts) == 1 and isinstance(pts[0].value, ast.Call) and
-               ast.unparse(pts[0].value.func) == "len", derived="%s" % (ast.unparse(pts[0].value) if pts else None), loc=r.fi.loc())
+               ast.unparse(pts[0].value.func) == "len", derived="%s" % (ast.unparse(pts[0].value) if pts else None), loc=r.fi.loc(),
+               inconclusive=not pts)
         summ[name] = (a0.dtype, "abs" in a0.tags, axv.const if (axv is not None and axv.has_const()) else None, okt, form)
     if len(summ) == 2:
         a, b = summ.values()
-        chk.ob("R-ST-AXIS", "get_max_stockwell_freq~get_max_tifq_vals_freq", "sibling helpers have equal summaries", a == b, derived="%s vs %s" % (a, b))
+        chk.ob("R-ST-AXIS", "get_max_stockwell_freq~get_max_tifq_vals_freq", "sibling helpers have equal summaries", a == b, derived="%s vs %s" % (a, b),
+               inconclusive=any(o.status == "inconclusive" for o in chk.obs if o.rule == "R-ST-AXIS"))
     # no ordering on complex data in the module (the package-wide rule lives in C06)
     gauss_rule(chk)
     chk.floor("R-ST-GAUSS", 1)
